@@ -23,7 +23,7 @@ from ..runner import Outcome
 
 ID = "C17"
 RULE = ("Hypothesis-generated TLS sessions over an in-memory duplex transport: TLS 1.2/1.3, standard_compatible on/off "
-        "per side, message-size sequences 0..40000 bytes in both directions at once, receive sizes 1..70000, transport "
+        "per side, message-size sequences 0..200000 bytes in both directions at once, receive sizes 1..70000, transport "
         "re-chunking plans (1-byte chunks, coalescing, sizes around the 16 KiB record limit), optional truncation of one "
         "direction at a generated ciphertext offset (handshake, mid-record, between records, before close_notify); "
         "non-trivial = a payload spanning more than one TLS record with chunking that is not record-aligned, or a "
@@ -60,10 +60,12 @@ def _gen(g):
     if g.chance(40):
         rng = g.weighted([(30, (0, 700)), (30, (700, 4000)), (40, (4000, 60000))])
         cut = [g.choice(["cs", "sc"]), g.int(*rng)]
+    chunks = {"cs": g.choice(PLANS), "sc": g.choice(PLANS)}
+    tiny = any(max(p) <= 3 for p in chunks.values())      # byte-wise transports: keep payloads small (cycles ~ bytes)
     return {"ver": g.choice(["1.2", "1.3"]), "sc": [g.chance(75), g.chance(75)],
-            "chunks": {"cs": g.choice(PLANS), "sc": g.choice(PLANS)}, "cut": cut,
-            "msgs": {"c": sizes(4, [0, 1, 5, 100, 3000, 16384, 16385, 40000]),
-                     "s": sizes(4, [0, 1, 5, 100, 3000, 16384, 16385, 40000])},
+            "chunks": chunks, "cut": cut,
+            "msgs": {"c": sizes(4, [0, 1, 5, 100, 3000, 16384, 16385] + ([] if tiny else [40000, 70000, 200000])),
+                     "s": sizes(4, [0, 1, 5, 100, 3000, 16384, 16385] + ([] if tiny else [40000, 70000, 200000]))},
             "recv": {"c": [g.choice([1, 7, 100, 1000, 16384, 65536, 70000]) for _ in range(g.int(1, 3))],
                      "s": [g.choice([1, 7, 100, 1000, 16384, 65536, 70000]) for _ in range(g.int(1, 3))]},
             "closer": g.choice(["c", "s"])}
@@ -272,7 +274,7 @@ def run_case(case) -> Outcome:
         res["sent"] = sent
 
     try:
-        run_on("S", main, budget=400000)
+        run_on("S", main, budget=1500000)
     except Deadlock as e:
         out.bad("hang", "deadlock", f"{case}: {e!r}")
         return out
